@@ -191,7 +191,10 @@ class Model:
         Returns:
           Pair variable information.
         """
-        if hasattr(self,'pairs'):
+        lp_vars_string = ''
+        # Brute force runs never create lp variables.
+        if (hasattr(self,'pairs') and 
+            all(hasattr(pair, 'lp_var') for row in self.pairs for pair in row)):
             lp_vars_string = 'Main lp decision variables:\n'
             for pair_row in self.pairs:
                 for pair in pair_row:
